@@ -49,14 +49,19 @@ class Semaphore {
 
     //! 释放资源
     void release() {
-        //! 每释放一个资源都要唤醒一个等待者。如果只在"由0变为非0"时才唤醒，
-        //! 连续释放多个资源时，排在后面的等待者就永远不会被唤醒
-        if (!token_.empty()) {
-            auto t = token_.front();
-            token_.pop();
-            sch_.resume(t);
-        }
         ++count_;
+
+        //! 每释放一个资源都要唤醒等待者。如果只在"由0变为非0"时才唤醒，
+        //! 连续释放多个资源时，排在后面的等待者就永远不会被唤醒。
+        //!
+        //! 为什么要唤醒所有的等待者，而不是只唤醒最早的那个？
+        //! 因为 token_ 中的协程可能已被 cancel() 了（甚至已经结束了），它不会来取资源，
+        //! 也没有机会把这次唤醒转交给后面的等待者，后面的等待者就会守着可用的资源一直睡下去。
+        //! 被唤醒的协程按等待的先后顺序依次执行，没有取到资源的会重新排队。
+        while (!token_.empty()) {
+            sch_.resume(token_.front());
+            token_.pop();
+        }
     }
 
     inline bool count() const { return count_; }
